@@ -151,6 +151,14 @@ func (lib *SpecLib) solve1(o *Obligation, timeoutS int, all bool, suffix string)
 		if a.status == "unsat" {
 			if res.Status != "unsat" {
 				res.Status, res.Solver, res.Ms = "unsat", a.s.name, a.ms
+				if all {
+					// confirmation by the other solvers: they get a bounded grace period, not the full timeout
+					grace := 3 * time.Duration(a.ms) * time.Millisecond
+					if grace < 5*time.Second {
+						grace = 5 * time.Second
+					}
+					time.AfterFunc(grace, cancel)
+				}
 			} else {
 				res.Confirm = append(res.Confirm, a.s.name)
 			}
